@@ -1212,8 +1212,12 @@ Definition group_name (tb : captab) (mco : bool) (v : gvars) (close : Z) (cur : 
              (* since 2b27550: under MaintainCaptureOrder the digits are the NAME the pre-scan filed them under
                 (countCaptures 432-435), numbered in pattern order; before, the main pass read them as a group
                 number and `(?<2>x)(?P<2>y)(?<2>z)(w)` under RE2 made a Capture outside the table *)
+             (* `ch != '0'` since 5afce6b: countCaptures does not file digits that start with '0' (424), and the name
+                Itoa(n) could be the one assignOrderedNameSlots generated for a later plain group:
+                `(?<x>q)(?<02>b)(a)` under RE2 consumed the automatic number 2 and made (a) Capture 3 *)
              let capnum := if mco && negb (n =? 0)
-                           then match ct_name tb (itoa n) with Some g => g | None => -1 end
+                           then (if ch =? 48 then -1
+                                 else match ct_name tb (itoa n) with Some g => g | None => -1 end)
                            else if ct_slot tb n then n else -1 in
              if hd_is_not q close && hd_is_not q 45 then PE PE_InvalidGroupName q
              else if capnum =? 0 then PE PE_CapNumNotZero q
